@@ -326,4 +326,5 @@ class HistoryModel:
         # later entries of the redo list were undone later, i.e. are *older*
         # changes, and are redone first
         self._undo.extend(reversed(deps))
+        self._truncate()  # the limit holds after a redo as well
         return deps
